@@ -991,6 +991,23 @@ def iter_next(I, fr, it):
                 for g2, y, nj in iter_next(I, fr, IterV('filter', [ni, f])):
                     out.append((gand(g, gnot(v), g2), y, nj))
         return out
+    if k == 'take_while':
+        inner, f, done = it.fields
+        if done:
+            return [(True, None, it)]
+        out = []
+        for g, x, ni in iter_next(I, fr, inner):
+            if x is None or isinstance(x, Outcome):
+                out.append((g, x, IterV('take_while', [ni, f, False]) if ni is not None else None))
+                continue
+            v, p = _bool_of_call(I, fr, f, [mk_sref(x)])
+            for o in p:
+                out.append((gand(g, o.guard), o, None))
+            if not g_false(v):
+                out.append((gand(g, v), x, IterV('take_while', [ni, f, False])))
+            if not g_true(v):
+                out.append((gand(g, gnot(v)), None, IterV('take_while', [ni, f, True])))
+        return out
     if k == 'zip':
         out = []
         for g, x, ni in iter_next(I, fr, it.fields[0]):
@@ -1201,6 +1218,10 @@ def m_hash_write(I, fr, a, ck):
         inner = v.inner
         it = I.by_key.get((inner.ty, 'Hash', 'hash')) if isinstance(inner, Adt) else None
         if it is None:
+            if isinstance(inner, (Str, int, bool, z3.ExprRef, OrdId)):
+                cur = I.peel_all(h, fr)
+                write_mref(I, fr, h, Seq(cur.items + (inner,)))
+                return UNIT
             raise Unsupported('Hash of Rc<%s>' % type(inner).__name__)
         return I.call_item(it, [mk_sref(inner), h], fr.mem)
     if isinstance(v, Adt):
@@ -1599,6 +1620,31 @@ def m_iter_minmax(I, fr, a, ck):
     return res
 
 
+def m_box_new_uninit(I, fr, a, ck):
+    c = I.new_cell()
+    m = dict(fr.mem)
+    m[c] = UNINIT
+    fr.mem = m
+    return BoxV(SlotV(c))
+
+
+def m_box_into_vec(I, fr, a, ck):
+    b = a[0]
+    if not (isinstance(b, BoxV) and isinstance(b.inner, SlotV)):
+        raise EngineError('box_assume_init_into_vec_unsafe on %s' % type(b).__name__)
+    v = fr.mem[b.inner.cell]
+    m = dict(fr.mem)
+    m.pop(b.inner.cell, None)
+    fr.mem = m
+    if not isinstance(v, Seq):
+        raise EngineError('vec! box content is %s' % type(v).__name__)
+    return v
+
+
+def m_iter_take_while(I, fr, a, ck):
+    return IterV('take_while', [to_iter(I, fr, a[0]), a[1], False])
+
+
 def m_rc_as_ptr(I, fr, a, ck):
     rc = I.peel_all(a[0], fr) if isinstance(a[0], (SRef, MRef)) else a[0]
     if not isinstance(rc, RcV):
@@ -1761,6 +1807,9 @@ def register_more(M):
     A(None, 'Iterator', 'find', m_iter_find)
     A('Rc', None, 'ptr_eq', m_rc_ptr_eq)
     A('Rc', None, 'as_ptr', m_rc_as_ptr)
+    A('Box', None, 'new_uninit', m_box_new_uninit)
+    A('boxed', None, 'box_assume_init_into_vec_unsafe', m_box_into_vec)
+    A(None, 'Iterator', 'take_while', m_iter_take_while)
     A('Rc', None, 'into_raw', m_rc_as_ptr)
     A('Option', None, 'map', m_option_map)
     A('Option', None, 'unwrap_or', m_option_unwrap_or)
